@@ -817,6 +817,7 @@ struct G
             d.text = "typedef int[0,3] lvl;";
             d.name = "lvl";
             t.decls.push_back(d);
+            t.decls.push_back(var("lvl lv" + std::to_string(ti) + ";", "lv" + std::to_string(ti)));  // ... and uses it as a type
             sc.ints.erase(std::remove(sc.ints.begin(), sc.ints.end(), "lvl"), sc.ints.end());
         }
         // locations
